@@ -29,6 +29,7 @@ Static clauses decided (necessary conditions of C15):
          never restored on that connection, and later bulk deletes leave dangling references (SQLite and MySQL providers).
  BULK    Query.delete(bulk=False) deletes through obj._delete_() (cascade rules apply); the bulk branch is an explicit
          opt-in parameter defaulting to None/False.
+ POS     as C13-POS (the undo of a refused delete puts the object back into slot 0 as into any other slot).
 """
 NOT_DECIDED = "recursion with pending changes on the dependents; bulk deletes versus session state (documented as bypassing the session)"
 
